@@ -101,9 +101,13 @@ package k8s
 //@ spec gotEscAt(n *v1.Node, i int) bool = 0 <= i && i < gotLen(n) && gotKey(n, i) == ToBeRemovedByAutoscalerKey && (forall j :: 0 <= j && j < i ==> gotKey(n, j) != ToBeRemovedByAutoscalerKey)
 // getSeen[name]: a Get for this node name was issued (the write path fetches before it writes)
 //@ ghost getSeen [string]bool
+// nGet counts the Node Get calls, nKFail the Node Get / Update calls that returned an error
+//@ ghost nGet int
+//@ ghost nKFail int
 //@ iface k8s.io/client-go/kubernetes/typed/core/v1.NodeInterface.Get(c, ctx, name, opts) (n, err)
-//@   modifies getSeen
+//@   modifies getSeen, nGet, nKFail
 //@   ensures getSeen == old(getSeen)[name := true]
+//@   ensures [C05,C07] nGet == old(nGet) + 1 && nKFail == old(nKFail) + (err != nil ? 1 : 0) && (n == nil ==> err != nil)
 //@   ensures n == nil || fresh(n)
 //@   ensures n != nil ==> base(n.Spec.Taints) == nil || fresh(base(n.Spec.Taints))
 //@   ensures err == nil && n != nil ==> n.Name == name
@@ -116,7 +120,8 @@ package k8s
 //@ ghost nUntaintOK int
 //@ iface k8s.io/client-go/kubernetes/typed/core/v1.NodeInterface.Update(c, ctx, node, opts) (r, err)
 //@   requires node != nil
-//@   modifies Jlen, Jkind, Jname, Jnode, Jok, Jesc, nTaintOK, nUntaintOK
+//@   modifies Jlen, Jkind, Jname, Jnode, Jok, Jesc, nTaintOK, nUntaintOK, nKFail
+//@   ensures [C05,C07] nKFail == old(nKFail) + (err != nil ? 1 : 0)
 //@   ensures [C03,C06,C07] nTaintOK == old(nTaintOK) || nTaintOK == old(nTaintOK) + 1
 //@   ensures [C03,C06,C07] nTaintOK == old(nTaintOK) + 1 <==> (err == nil && hasEsc(node) && !gotHasEsc(node))
 //@   ensures [C03,C06,C07] nUntaintOK == old(nUntaintOK) || nUntaintOK == old(nUntaintOK) + 1
@@ -176,7 +181,7 @@ package k8s
 // plus exactly one new one; nothing else of any Node is written.
 //@ func AddToBeRemovedTaint(node, client, taintEffect) (r, err)
 //@   requires node != nil && client != nil
-//@   modifies Jlen, Jkind, Jname, Jnode, Jok, Jesc, clock, nTaintOK, nUntaintOK, getSeen
+//@   modifies Jlen, Jkind, Jname, Jnode, Jok, Jesc, clock, nTaintOK, nUntaintOK, getSeen, nGet, nKFail
 //@   ensures getSeen == old(getSeen)[node.Name := true]
 //@   ensures [C03,C06,C07] nUntaintOK == old(nUntaintOK) && old(nTaintOK) <= nTaintOK && nTaintOK <= old(nTaintOK) + 1
 //@   ensures [C03,C06,C07] nTaintOK == old(nTaintOK) + 1 ==> err == nil && Jlen == old(Jlen) + 1
@@ -201,11 +206,13 @@ package k8s
 // that taint is gone and every other one is kept; nothing else of any Node is written.
 //@ func DeleteToBeRemovedTaint(node, client) (r, err)
 //@   requires node != nil && client != nil
-//@   modifies Jlen, Jkind, Jname, Jnode, Jok, Jesc, nTaintOK, nUntaintOK, getSeen
+//@   modifies Jlen, Jkind, Jname, Jnode, Jok, Jesc, nTaintOK, nUntaintOK, getSeen, nGet, nKFail
 //@   ensures getSeen == old(getSeen)[node.Name := true]
 //@   ensures [C03,C06,C07] nTaintOK == old(nTaintOK) && old(nUntaintOK) <= nUntaintOK && nUntaintOK <= old(nUntaintOK) + 1
 //@   ensures [C03,C06,C07] nUntaintOK == old(nUntaintOK) + 1 ==> err == nil && Jlen == old(Jlen) + 1
 //@   ensures [C03,C06,C07] err != nil ==> nUntaintOK == old(nUntaintOK)
+// C05/C07 accounting: one fetch per call, and the call fails exactly when one of its API calls failed
+//@   ensures [C05,C07] nGet == old(nGet) + 1 && nKFail == old(nKFail) + (err != nil ? 1 : 0)
 //@   onlywrites [C15] "^H:(v1|metav1)\\." : "^H:v1\\.NodeSpec\\.Taints\\.|^H:v1\\.Taint\\."
 //@   ensures old(Jlen) <= Jlen && Jlen <= old(Jlen) + 1
 //@   ensures forall k :: k < old(Jlen) ==> Jkind[k] == old(Jkind)[k] && Jname[k] == old(Jname)[k] && Jok[k] == old(Jok)[k] && Jnode[k] == old(Jnode)[k] && Jesc[k] == old(Jesc)[k]
